@@ -375,3 +375,43 @@ func zzC09Resume() {
 	}
 	vReach("end")
 }
+
+// H3: once the connection has failed, every Read (and Write) reports that failure — the first one — and never a
+// message, whatever else is ready; this is what turns a failed stream into "the session closes and every call
+// completes with an error" (C01).
+func zzC09ReadAfterFail() {
+	c := zzNewClientConn()
+	e1, e2 := errors.New("stream broke"), errors.New("later problem")
+	if vBool("messageQueued") {
+		c.incoming <- &jsonrpc.Response{ID: jsonrpc2.Int64ID(1), Result: vJSON("late")}
+	}
+	ctx, cancel := context.WithCancel(context.Background())
+	if vBool("callerGone") {
+		cancel()
+	}
+	nf := vChoice("failures", 3)
+	if nf >= 1 {
+		c.fail(e1)
+	}
+	if nf >= 2 {
+		c.fail(e2)
+		c.fail(nil)
+	}
+	closed := vBool("closed")
+	if closed {
+		close(c.done)
+	}
+	vAssume(nf >= 1 || closed || ctx.Err() != nil || vChanLen(c.incoming) > 0) // otherwise Read legitimately waits
+	msg, err := c.Read(ctx)
+	if nf >= 1 {
+		vAssert(msg == nil && err == e1, "C09.failed-connection-reads-report-the-first-failure")
+		werr := c.Write(context.Background(), &jsonrpc.Request{Method: "notifications/x"})
+		vAssert(werr == e1, "C09.failed-connection-refuses-writes")
+		vReach("failed")
+	} else {
+		vAssert(msg != nil || err != nil, "C09.read-returns-something")
+		vAssert(c.failure() == nil, "C09.no-failure-without-fail")
+	}
+	cancel()
+	vReach("end")
+}
